@@ -159,6 +159,17 @@ func resultKinds() []kindSpec {
 		{"pointer", func(b *PB, pkg int) *Ty { return PtrTo(b.Carrier(pkg, "")) }},
 		{"ptr-ptr", func(b *PB, pkg int) *Ty { return PtrTo(PtrTo(b.Carrier(pkg, ""))) }},
 		{"func", func(b *PB, pkg int) *Ty { return FuncRet(b.Carrier(pkg, "")) }},
+		{"ptr-array", func(b *PB, pkg int) *Ty { return PtrTo(ArrayOf(2, b.Carrier(pkg, ""))) }},
+		{"ptr-slice", func(b *PB, pkg int) *Ty { return PtrTo(SliceOf(b.Carrier(pkg, ""))) }},
+		{"slice-of-ptr", func(b *PB, pkg int) *Ty { return SliceOf(PtrTo(b.Carrier(pkg, ""))) }},
+		{"map-of-slice", func(b *PB, pkg int) *Ty { return MapOf(Basic("int"), SliceOf(b.Carrier(pkg, ""))) }},
+		{"array-of-array", func(b *PB, pkg int) *Ty { return ArrayOf(2, ArrayOf(2, b.Carrier(pkg, ""))) }},
+		{"named-ptr", func(b *PB, pkg int) *Ty {
+			return b.NamedOf(pkg, fmt.Sprintf("NP%d", b.next()), PtrTo(b.Carrier(pkg, "")), "wrap")
+		}},
+		{"named-chan", func(b *PB, pkg int) *Ty {
+			return b.NamedOf(pkg, fmt.Sprintf("NCh%d", b.next()), ChanOf("", b.Carrier(pkg, "")), "wrap")
+		}},
 		{"named-func", func(b *PB, pkg int) *Ty {
 			return b.NamedOf(pkg, fmt.Sprintf("NFn%d", b.next()), FuncRet(b.Carrier(pkg, "")), "wrap")
 		}},
@@ -403,5 +414,277 @@ func errNameProgs(e *Env) []*Program {
 		b.P.Note = "pkg-scope-err-name"
 		progs = append(progs, b.P)
 	}
+	return progs
+}
+
+// bindOrderFamily: one consumer NewTop whose parameters are an ordered selection of
+// {D, I, C, J} (D an input of the concrete type's provider, I and J two interfaces bound to
+// the concrete type C), times the source of C and the placement of the bindings. The order in
+// which the planner meets the interface, the concrete type and the concrete type's inputs
+// must change neither acceptance nor the instance delivered. sample picks 1/k of the cells.
+func bindOrderFamily(idp string, seed int64, k int) []*Program {
+	var out []*Program
+	n := 0
+	for _, sel := range orderedSubsets([]int{0, 1, 2, 3}) { // 0 D, 1 I, 2 C, 3 J
+		hasI := false
+		hasD := false
+		for _, x := range sel {
+			if x == 1 || x == 3 {
+				hasI = true
+			}
+			if x == 0 {
+				hasD = true
+			}
+		}
+		if !hasI {
+			continue
+		}
+		for _, src := range []string{"func0", "func1", "struct1", "func1err"} {
+			for _, place := range []string{"direct", "set", "bind-outer"} {
+				n++
+				if k > 1 && int64(n%k) != seed%int64(k) {
+					continue
+				}
+				b := NewPB(fmt.Sprintf("%s%04d", idp, n), "app")
+				d := b.Carrier(0, "Dep")
+				var concBase *TypeDecl
+				if src == "struct1" {
+					concBase = b.P.NewDecl(0, "Conc", StructOf(FieldT{Name: "Dep", Ty: d}), "none")
+				} else {
+					concBase = b.P.NewDecl(0, "Conc", StructOf(idField), "struct")
+				}
+				concBase.Methods = append(concBase.Methods, Method{Name: "MI", PtrRecv: true}, Method{Name: "MJ", PtrRecv: true})
+				conc := PtrTo(Named(concBase))
+				ifI := Named(b.P.NewDecl(0, "IfaceI", &Ty{K: "iface", Meths: []string{"MI"}, Params: []*Ty{conc}}, "iface"))
+				ifJ := Named(b.P.NewDecl(0, "IfaceJ", &Ty{K: "iface", Meths: []string{"MJ"}, Params: []*Ty{conc}}, "iface"))
+				var prov []Ref
+				needD := hasD
+				isErr := false
+				switch src {
+				case "func0":
+					prov = append(prov, ItemRef(b.Func(0, "NewConc", conc, false, false).ID))
+				case "func1":
+					prov = append(prov, ItemRef(b.Func(0, "NewConc", conc, false, false, d).ID))
+					needD = true
+				case "func1err":
+					prov = append(prov, ItemRef(b.Func(0, "NewConc", conc, true, true, d).ID))
+					needD = true
+					isErr = true
+				case "struct1":
+					prov = append(prov, ItemRef(b.Struct(Named(concBase), false, "Dep").ID))
+					needD = true
+				}
+				var binds []Ref
+				usesJ := false
+				for _, x := range sel {
+					if x == 3 {
+						usesJ = true
+					}
+				}
+				usesI := false
+				for _, x := range sel {
+					if x == 1 {
+						usesI = true
+					}
+				}
+				if usesI {
+					binds = append(binds, ItemRef(b.Bind(ifI, conc).ID))
+				}
+				if usesJ {
+					binds = append(binds, ItemRef(b.Bind(ifJ, conc).ID))
+				}
+				var build []Ref
+				if needD {
+					build = append(build, ItemRef(b.Func(0, "NewDep", d, false, false).ID))
+				}
+				switch place {
+				case "direct":
+					build = append(build, prov...)
+					build = append(build, binds...)
+				case "set":
+					s := b.Set(0, "ConcSet", append(append([]Ref{}, prov...), binds...)...)
+					build = append(build, SetRef(s.ID))
+				case "bind-outer":
+					s := b.Set(0, "ConcSet", prov...)
+					build = append(build, SetRef(s.ID))
+					build = append(build, binds...)
+				}
+				tys := []*Ty{d, ifI, conc, ifJ}
+				var ps []*Ty
+				for _, x := range sel {
+					ps = append(ps, tys[x])
+				}
+				top := b.Carrier(0, "Top")
+				build = append(build, ItemRef(b.Func(0, "NewTop", top, false, false, ps...).ID))
+				b.Inj("Init", top, isErr, isErr, nil, build...)
+				cell := fmt.Sprintf("bind-order/params=%v/src=%s/place=%s", sel, src, place)
+				b.P.Note = cell
+				b.P.Feat = map[string]string{"cell": cell}
+				out = append(out, b.P)
+			}
+		}
+	}
+	return out
+}
+
+// lateImportProgs (C14): a package whose name first becomes necessary in the middle of an
+// injector body (struct literal of an imported struct type, value variable of an imported type)
+// while a parameter or an earlier local of that injector already carries the package's name.
+func lateImportProgs() []*Program {
+	var out []*Program
+	n := 0
+	for _, construct := range []string{"struct", "structptr", "structstar", "value", "ptrvalue", "fieldsofvalue"} {
+		for _, collide := range []string{"param", "local", "both", "none"} {
+			for _, order := range []string{"collider-first", "collider-last"} {
+				for _, prior := range []string{"none", "earlier-injector"} {
+					n++
+					b := NewPB(fmt.Sprintf("li%03d", n), "app", "liba", "libb")
+					dep := b.Carrier(2, "Dep")
+					newDep := b.Func(2, "NewDep", dep, false, false)
+					var target *Ty
+					var items []*Item
+					items = append(items, newDep)
+					switch construct {
+					case "struct", "structptr", "structstar":
+						sd := b.P.NewDecl(1, "Options", StructOf(FieldT{Name: "Dep", Ty: dep}), "none")
+						target = Named(sd)
+						if construct == "structptr" {
+							target = PtrTo(target)
+						}
+						if construct == "structstar" {
+							items = append(items, b.Struct(Named(sd), true))
+						} else {
+							items = append(items, b.Struct(Named(sd), false, "Dep"))
+						}
+					case "value":
+						target = b.Carrier(1, "Options")
+						items = append(items, b.Value(target))
+					case "ptrvalue":
+						target = PtrTo(b.Carrier(1, "Options"))
+						items = append(items, b.Value(target))
+					case "fieldsofvalue":
+						fld := b.Carrier(2, "Fld")
+						par := b.P.NewDecl(1, "Options", StructOf(idField, FieldT{Name: "Fld", Ty: fld}), "parent")
+						items = append(items, b.Value(Named(par)), b.Fields(Named(par), "Fld"))
+						target = fld
+					}
+					var params []Param
+					var colTys []*Ty
+					if collide == "param" || collide == "both" {
+						pt := b.Carrier(0, "FromParam")
+						params = append(params, Param{Name: "liba", Ty: pt})
+						colTys = append(colTys, pt)
+					}
+					if collide == "local" || collide == "both" {
+						lt := b.Carrier(0, "Liba")
+						items = append(items, b.Func(0, "NewLiba", lt, false, false))
+						colTys = append(colTys, lt)
+					}
+					var ps []*Ty
+					if order == "collider-first" {
+						ps = append(append(ps, colTys...), target, dep)
+					} else {
+						ps = append(append(ps, target, dep), colTys...)
+					}
+					top := b.Carrier(0, "Top")
+					items = append(items, b.Func(0, "NewTop", top, false, false, ps...))
+					if prior == "earlier-injector" {
+						// an injector placed first that already needs package liba
+						other := b.Carrier(1, "Other")
+						no := b.Func(1, "NewOther", other, false, false)
+						b.Inj("Early", other, false, false, nil, ItemRef(no.ID))
+					}
+					b.Inj("Init", top, false, false, params, refs(items...)...)
+					cell := fmt.Sprintf("late-import/%s/collide=%s/%s/prior=%s", construct, collide, order, prior)
+					b.P.Note = cell
+					b.P.Feat = map[string]string{"cell": cell}
+					out = append(out, b.P)
+				}
+			}
+		}
+	}
+	return out
+}
+
+// cleanupSignatureProduct (C03/C04): chains of n providers where every provider independently
+// has one of the four result shapes {T; T,func(); T,error; T,func(),error} — the full product
+// up to maxFull, a seed-selected sample above — with the link between consecutive providers
+// rotating over {direct parameter, interface binding, struct-provider field} and providers
+// alternating between the injector's package and another one. The injector declares exactly the
+// results it needs, so injectors without an error result and with a single cleanup occur.
+func cleanupSignatureProduct(e *Env) []*Program {
+	var progs []*Program
+	maxFull := e.tierN(3, 5)
+	maxN := e.tierN(5, 6)
+	var b *PB
+	inProg := 0
+	flush := func() {
+		if b != nil && inProg > 0 {
+			b.P.Feat = map[string]string{"shape": "cleanup-signature-product", "first": b.P.Injs[0].Name}
+			b.P.Note = "cleanup-signature-product"
+			progs = append(progs, b.P)
+		}
+		b = nil
+		inProg = 0
+	}
+	count := 0
+	for n := 1; n <= maxN; n++ {
+		total := 1
+		for k := 0; k < n; k++ {
+			total *= 4
+		}
+		for combo := 0; combo < total; combo++ {
+			if n > maxFull && int64(combo%61) != (e.Seed+int64(n))%61 {
+				continue
+			}
+			if b == nil {
+				b = NewPB(fmt.Sprintf("sp%03d", len(progs)), "app", "libs")
+			}
+			count++
+			var items []*Item
+			var prev *Ty
+			anyCu, anyEr := false, false
+			c := combo
+			for k := 0; k < n; k++ {
+				d := c % 4
+				c /= 4
+				cu, er := d&1 == 1, d&2 == 2
+				anyCu = anyCu || cu
+				anyEr = anyEr || er
+				pkg := (combo + k) % 2
+				var params []*Ty
+				if prev != nil {
+					params = []*Ty{prev}
+				}
+				link := (combo/3 + k) % 3
+				if k == n-1 {
+					link = 0
+				}
+				t := b.Carrier(1, "") // every type lives in the library package, providers alternate
+				switch link {
+				case 0:
+					items = append(items, b.Func(pkg, "", t, cu, er, params...))
+					prev = t
+				case 1:
+					items = append(items, b.Func(pkg, "", PtrTo(t), cu, er, params...))
+					ifc := b.Iface(1, "", PtrTo(t), true)
+					items = append(items, b.Bind(ifc, PtrTo(t)))
+					prev = ifc
+				case 2:
+					items = append(items, b.Func(pkg, "", t, cu, er, params...))
+					s := b.NamedOf(1, fmt.Sprintf("W%d", b.next()), StructOf(FieldT{Name: "F", Ty: t}), "none")
+					items = append(items, b.Struct(s, false, "F"))
+					prev = s
+				}
+			}
+			b.Inj(fmt.Sprintf("N%dC%d", n, combo), prev, anyCu, anyEr, nil, refs(items...)...)
+			inProg++
+			if inProg >= 12 {
+				flush()
+			}
+		}
+	}
+	flush()
+	_ = count
 	return progs
 }
